@@ -99,6 +99,17 @@ def gen(run):
     for sp, rd, st in [("N.proper", "とうきょう", "東京"), ("V.godan.12459", "か", "書"), ("ADJ", "たか", "高"),
                        ("V.hen.12459", "く", "来"), ("V.kamiIchidan.12469", "あい", "愛")]:
         reqs.append(("words %s | %s | %s" % (sp, cl.cps(rd), cl.cps(st)), {"op": "words", "sp": sp}))
+        reqs.append(("wordsref %s | %s | %s" % (sp, cl.cps(rd), cl.cps(st)), {"op": "wordsref", "sp": sp}))
+    # both conversions of an entry to words (by value and by reference) over every class/row, with stems whose reading
+    # ends in the kana the irregular rows look at (い for カ行五段, a single kana for 一段, く for カ変)
+    for cls in CLASSES:
+        for row in list(ROWS):
+            for rd, st in [("か", "書"), ("い", "行"), ("あるい", "歩"), ("く", "来"), ("み", "見"), ("たべ", "食"), ("", "")]:
+                for op in ("words", "wordsref"):
+                    reqs.append(("%s %s | %s | %s" % (op, tok(cls, row), cl.cps(rd), cl.cps(st)), {"op": op, "sp": tok(cls, row)}))
+    for sp in ["ADJ", "ADJV", "N.common", "N.proper", "ADV", "AFX.prefix", "AFX.suffix", "P.case", "CNT"]:
+        for op in ("words", "wordsref"):
+            reqs.append(("%s %s | %s | %s" % (op, sp, cl.cps("たか"), cl.cps("高")), {"op": op, "sp": sp}))
     return reqs
 
 
@@ -106,6 +117,16 @@ def oracle(run, reqs, impl):
     fails = []
     guessed = {}
     n = {"aligned": 0, "row": 0, "core": 0, "guess_conjugable": 0, "guess_accepts": 0}
+    # the two conversions of one entry must agree (C12: the words of an entry do not depend on who asks)
+    byval = {}
+    for (line, m), r in zip(reqs, impl):
+        if m["op"] == "words":
+            byval[line.split(" ", 1)[1]] = r
+    for (line, m), r in zip(reqs, impl):
+        if m["op"] == "wordsref" and byval.get(line.split(" ", 1)[1]) != r:
+            fails.append(("ref-conversion-differs", {"kind": "ref-conversion-differs"},
+                          {"entry": [line.split(" ", 1)[1].split(" | ")[0]] + [cl.from_cps(x) for x in line.split(" ", 1)[1].split(" | ")[1:]],
+                           "From<Entry>": byval.get(line.split(" ", 1)[1], "")[:200], "From<&Entry>": r[:200]}))
     for (line, m), r in zip(reqs, impl):
         if m["op"] == "conj" and r != "panic":
             forms = common.decode_fields(r)
